@@ -505,7 +505,7 @@ func (g *Gen) build(kind string) []int64 {
 		if g.tooMany() {
 			return nil
 		}
-		return []int64{3, int64(g.R.Intn(5))}
+		return []int64{3, int64(g.R.Intn(5)), g.fnFlag(false)}
 	case "copy":
 		if g.tooMany() {
 			return nil
@@ -640,7 +640,7 @@ func (g *Gen) build(kind string) []int64 {
 		if !ok {
 			return nil
 		}
-		return cat([]int64{12, int64(fi)}, encPairs(g.queryRels(fi)))
+		return cat([]int64{12, int64(fi)}, encPairs(g.queryRels(fi)), []int64{g.fnFlag(false)})
 	case "reset":
 		g.registered = map[int]bool{}
 		if !g.S.W.IsLocked() {
@@ -821,7 +821,7 @@ func (g *Gen) build(kind string) []int64 {
 		codes := menu[g.R.Intn(len(menu))]
 		comps := g.compsOfCodes(codes)
 		rels := g.relsFor(comps, inv)
-		return cat([]int64{30, int64(g.R.Intn(4))}, encList(comps), encPairs(rels), encPairs(g.valsFor(comps)))
+		return cat([]int64{30, int64(g.R.Intn(4))}, encList(comps), encPairs(rels), encPairs(g.valsFor(comps)), []int64{g.fnFlag(true)})
 	case "exbatch":
 		fi, ok := g.filterIdx(true)
 		if !ok {
@@ -956,3 +956,16 @@ func (g *Gen) build(kind string) []int64 {
 }
 
 var _ = ecs.Entity{}
+
+// fnFlag draws the optional trailing flag of ops 3, 12 and 30: about a third of the batch operations
+// pass no callback; for op 30 half use the single-component Map[T] where possible.
+func (g *Gen) fnFlag(mapT bool) int64 {
+	f := int64(0)
+	if g.R.Intn(3) == 0 {
+		f = 1
+	}
+	if mapT && g.R.Intn(2) == 0 {
+		f += 2
+	}
+	return f
+}
